@@ -170,6 +170,8 @@ def run(chk, repo, tier):
         if case == (0, True) or not norm or not plain:
             continue          # piston is the mask itself on either path
         if not g.get(True) and not g.get(False) and not any(('sym', nm) in nf.value_atoms(q_.ret) for q_ in g.get(None, [])):
+            if not any(is_app(a_, 'call:zernike.R') for q_ in g.get(None, []) for a_ in nf.value_atoms(q_.ret)):
+                continue        # no radial polynomial on this path: the piston term (the mask itself), selected some other way
             # the flag is not consulted at all for this case: normalised and un-normalised modes come out the same although
             # they differ by sqrt(n+1) or sqrt(2(n+1))
             m_zero = case[0] == 0
